@@ -13,6 +13,8 @@ checks = {
  "C10": ("model_checking", T, "all sequences (to the bound) of create/update/remove/opt-in messages with zero, past, future and equal spawn times, chain-id changes (same / other revision), allow-inactive consumers, and 5 s / unbonding-period block steps; phase edges, INITIALIZED <=> spawn time <=> scheduled exactly once, launch timing and success predicate, recorded genesis and client are judged on every transition; three directed fixtures with 205 / 150+100 / 199+2+3 consumers due at once exercise the 200-per-block limit", "§5 C10"),
  "C19": ("fault_enumeration", T, "part (i): the halt monitor (no BeginBlock/EndBlock error or panic, validator updates acceptable to CometBFT) over the lifecycle, keys, eligibility and provvalset searches; part (ii) (fault injection at external calls) is being added", "§5 C19"),
  "C20": ("model_checking", T, "all sequences (to the bound) of full / partial / cancelling parameter updates on a launched and a registered consumer, stop+deletion, downtime handling and block steps 5 s, U-5 s, U; in-force / pending / schedule records are compared with the timeline rules on every transition and the fraction and jail time actually applied are compared with the parameters in force; a directed fixture with 203 changes due at once exercises the 200-per-block limit", "§5 C20"),
+ "C13": ("model_checking", T, "two worlds per node (with / without the operations aimed at consumer X in {1, 10, 0}); eleven consumers so that ids 1 and 10 coexist, both rich (keys incl. replaced ones, opt-ins, three lists, commission, pending infraction change, queued VSC packets, slash acks, reward credit); after every event of every sequence up to the bound every provider-store entry not owned by X must be byte-identical in both worlds", "§5 C13"),
+ "C14": ("model_checking", T, "the alphabet is the full message matrix (7 consumers in all five phases and three ownership/Top-N histories x senders owner / previous owner / other user / governance / operator / other operator x 10 update variants incl. owner+Top-N changed together, remove, create, params, reward denoms, four validator-scoped messages); every message is judged in every state reachable by sequences of those messages up to the bound", "§5 C14"),
  "C15": ("model_checking", T, "every sequence of staking / governance / block events up to the bound on 8 (M, MaxValidators) configurations; after every block the recorded set, the engine-side accumulated set, the returned updates and the staking views are compared with an independent recomputation from the staking store", "§5 C15"),
 }
 ids=[json.loads(l)['id'] for l in open('/verif/properties.jsonl')]
